@@ -257,7 +257,8 @@ PROPS['C05'] = {
     'models': [],
     'obligations': [],
 }
-M('C05', 'M1.must_record', 'plugin_must_record', 'for every tower and every way the request can end, the appointment is recorded exactly once as accepted / pending / invalid or the tower is flagged misbehaving; towers not contacted get it as pending unless they are known to misbehave')
+M('C05', 'M1.must_record', 'plugin_must_record', 'for every tower and every way the request to it can end, the appointment is recorded exactly once as accepted / pending / invalid or the tower is flagged misbehaving', part='reply')
+M('C05', 'M1.skipped_towers', 'plugin_must_record', 'towers that are not contacted (unreachable / subscription error) get the appointment as pending, exactly once, unless they are known to misbehave', part='skipped')
 PROPS['C14'] = {
     'level': 'model_checking',
     'technique': 'Engine M guarded-reachability queries on the MIR of register (binary) and send_appointment (library): the trusting action is reachable only through the true edge of the signature comparison',
@@ -269,3 +270,89 @@ PROPS['C14'] = {
 }
 M('C14', 'M1.register_verify', 'plugin_register_verify', 'register reaches WTClient::add_update_tower only on paths on which RegistrationReceipt::verify(&tower_id) returned true')
 M('C14', 'M2.send_appointment', 'plugin_send_appointment', 'send_appointment yields Ok only on paths on which the id recovered from the tower signature equals the tower id; plus witness of F12 (recovered key unwrap()ed)')
+
+# ----------------------------------------------------------------------------------------------- C01 / C02 / C06 / C08 / C11 (K)
+CRYPTO_STUBS = ('cryptography::{recover_pk, sign, decrypt} and UUID::new are stubs (models/stubs_teos.rs): recover_pk returns a scripted result and records '
+                'the message; sign records the message; decrypt is an ideal cipher on the harness universe (blob [1,d] decrypts under the id of tx(d) only); '
+                'UUID::new is injective on the universe')
+W_ASSUME = [SHAPES, DBM_MODEL + ' (appointment rows keep blob length + first two bytes, signature first byte; tracker rows keep the transactions\' lock times)',
+            BITCOIND_MODEL, CRYPTO_STUBS, CARRIER_CONTRACT + ' (also Carrier::in_mempool in the late-appointment harnesses)'] + COMMON_MODELS_TEOS
+PROPS['C01'] = {
+    'level': 'model_checking',
+    'technique': 'Kani/CBMC on the real Responder::handle_breach, Watcher::store_triggered_appointment and Carrier (unit steps from enumerated pre-state shapes), '
+                 'composed through call contracts',
+    'bounds': 'one breach / one late appointment; tx index and locator cache of size 2; carrier / index heights full u32; node verdict any (handle_breach) or per shape '
+              '{accepted, -26, -27} (late appointments); blob 3 bytes',
+    'outside': 'the block-connection path Watcher::filtered_block_connected -> get_breaches -> handle_breaches is not run under Kani (its loop over breaches runs out of memory): '
+               'only its lock/call order is checked (C10.M1, C11.M1) and its per-breach step is the same handle_breach; the six-block window is C19; real decryption (stub); '
+               'multi-breach blocks; SQL',
+    'assumptions': W_ASSUME,
+    'models': [DBM_MODEL, BITCOIND_MODEL, CRYPTO_STUBS],
+    'harness_timeout': {'quick': 900, 'thorough': 1800},
+    'obligations': [],
+}
+K('C01', 'P3.handle_breach.in_index', 'teos', _r + 'c01_p3_handle_breach_in_index', 'handle_breach, penalty already in the recent-block index: ConfirmedIn(true height), nothing sent, tracker = (dispute, penalty, status, owner)')
+K('C01', 'P3.handle_breach.not_in_index', 'teos', _r + 'c01_p3_handle_breach_not_in_index', 'handle_breach, penalty not indexed: in mempool => InMempoolSince(carrier height) unsent; else submitted once, status = node verdict; tracker iff accepted; refused => no write')
+K('C01', 'K3.carrier_send', 'teos', _ca + 'c12_k1_send_through_outage', 'Carrier contract: verdict mapping for every node reply, <= 1 answered RPC per transaction and block, never ConfirmedIn')
+K('C01', 'K3.carrier_height', 'teos', _ca + 'c01_k3_height', 'accepted now => InMempoolSince(carrier\'s current height)')
+K('C01', 'P4.late_accepted', 'teos', _w + 'c01_late_accepted', 'late appointment (dispute in cache): blob decrypted with the dispute id, penalty submitted before answering, appointment + tracker stored with exactly that dispute/penalty')
+K('C01', 'P4.late_garbled', 'teos', _w + 'c01_late_garbled', 'late appointment whose blob does not decrypt: nothing sent, nothing stored')
+K('C01', 'P4.late_rejected', 'teos', _w + 'c01_late_rejected', 'late appointment whose penalty the node refuses: only that appointment is dropped', 'thorough')
+K('C01', 'P4.late_already_in_chain', 'teos', _w + 'c11_late_already_in_chain', 'late appointment whose penalty is already in the chain: no tracker and no orphan row (F15 regression)')
+K('C01', 'P5.add_late_calls_store_triggered', 'teos', _w + 'c08_add_new', 'add_appointment without cache hit stores and does not decrypt or send (the cache-hit branch is the unit above)', 'thorough')
+
+PROPS['C02'] = {
+    'level': 'model_checking',
+    'technique': 'Kani/CBMC: every harness of C01/C04 logs each RPC the real code issues on the node model and asserts what was sent; Engine M call-site query is not needed because the logs are exhaustive per step',
+    'bounds': 'as C01 and C04',
+    'outside': 'whether bitcoind "had" a penalty is the node\'s answer; owner removal (purge) composes through C09.K3 (rows cascade) and listener order (gatekeeper first) which is not encoded; SQL cascade',
+    'assumptions': W_ASSUME,
+    'models': [DBM_MODEL, BITCOIND_MODEL, CRYPTO_STUBS],
+    'harness_timeout': {'quick': 900, 'thorough': 1800},
+    'obligations': [],
+}
+K('C02', 'P1.handle_breach_sends_penalty_only', 'teos', _r + 'c01_p3_handle_breach_not_in_index', 'handle_breach submits the breach\'s penalty and nothing else, at most once; no tracker (no dispute_responded) unless the node took or had it')
+K('C02', 'P1.confirmed_not_sent', 'teos', _r + 'c01_p3_handle_breach_in_index', 'nothing is sent for a penalty that is already confirmed')
+K('C02', 'P2.reorged', 'teos', _r + 'c04_p3_handle_reorged', 'after a reorg only the dispute and then the penalty of a reorged tracker are sent; the penalty only if the dispute was not refused')
+K('C02', 'P3.rebroadcast_only_stale', 'teos', _r + 'c04_p4_rebroadcast_fresh_boundary', 'nothing is re-submitted for fresh or confirmed trackers')
+K('C02', 'P4.garbled_never_sent', 'teos', _w + 'c01_late_garbled', 'nothing is sent for an appointment that fails to decrypt')
+K('C02', 'P4.untriggered_never_sent', 'teos', _w + 'c08_add_new', 'nothing is decrypted or sent for an appointment that was not triggered', 'thorough')
+K('C02', 'P5.counting_never_sends', 'teos', _r + 'c04_p1_cc_absent_fresh_confirmed', 'check_confirmations and block_disconnected never talk to the node')
+K('C02', 'P6.query_never_sends', 'teos', _ca + 'c12_k1_in_mempool_through_outage', 'in_mempool never submits')
+
+PROPS['C06']['disabled'] = False
+PROPS['C06']['technique'] = 'Kani/CBMC on Gatekeeper::authenticate_user (arbitrary-result signature recovery) and on Watcher::add_appointment from enumerated request shapes'
+PROPS['C06']['bounds'] = '2 registered users + 1 unregistered key; one add_appointment request per shape (bad signature, unregistered key, expired at the boundary height, already triggered, no slots, new, update); heights/balances symbolic'
+PROPS['C06']['outside'] = PROPS['C06']['outside'] + '; get_appointment / get_subscription_info handlers (their format!-built messages need real formatting under Kani: not run) are covered only through authenticate_user and has_subscription_expired, which they share'
+PROPS['C06']['assumptions'] = W_ASSUME + GK_ASSUME[:2]
+K('C06', 'P2.bad_signature', 'teos', _w + 'c06_add_bad_signature', 'add_appointment with an unrecoverable signature: AuthenticationFailure, no write, nothing sent; the authenticated message is the serialised appointment')
+K('C06', 'P2.unregistered_key', 'teos', _w + 'c06_add_unregistered_key', 'add_appointment signed by an unregistered key: AuthenticationFailure, no write', 'thorough')
+K('C06', 'P2.expired', 'teos', _w + 'c06_add_expired', 'add_appointment at height == expiry: SubscriptionExpired(expiry), no write')
+K('C06', 'P4.isolation_add', 'teos', _w + 'c08_add_update', 'an accepted add/update leaves the other user\'s record and the other user\'s appointment for the same locator untouched')
+
+PROPS['C08'] = {
+    'level': 'model_checking',
+    'technique': 'Kani/CBMC: signed byte layouts (teos-common), registration receipt == persisted values (Gatekeeper), add_appointment receipt fields, signed message and stored row (Watcher request shapes)',
+    'bounds': 'layouts: signature / blob <= 4 bytes, all u32; requests: one add_appointment per shape, blob 3 / 2049 / 4097 bytes, heights and balances symbolic',
+    'outside': 'sign / verify themselves (libsecp256k1; stubbed: what is decided is *which bytes* are signed); that DBM::{store,update}_appointment write and load_appointment reads back all columns is SQL '
+               '(model keeps blob length + 2 bytes, signature first byte); Watcher::register signs the gatekeeper\'s receipt (two-line function, not run under Kani)',
+    'assumptions': W_ASSUME,
+    'models': [DBM_MODEL, CRYPTO_STUBS],
+    'harness_timeout': {'quick': 900, 'thorough': 1800},
+    'obligations': [],
+}
+K('C08', 'K1.appointment_receipt_layout', 'teos-common', _c + 'c08_k1_appointment_receipt_layout', 'AppointmentReceipt::to_vec = user_signature || start_block(BE): determines both fields')
+K('C08', 'K1.appointment_layout', 'teos-common', _c + 'c08_k1_appointment_layout', 'Appointment::to_vec = locator(16) || blob || to_self_delay(BE)')
+K('C08', 'K2.registration_receipt', 'teos', _g + 'c09_k5_register_new', 'registration receipt fields == UserInfo in memory == database row')
+K('C08', 'K2.renewal_receipt', 'teos', _g + 'c09_k5_renew', 'renewal receipt fields == UserInfo in memory == database row')
+K('C08', 'P2.add_new', 'teos', _w + 'c08_add_new', 'accepted new appointment: receipt = (user signature, tower height), tower signs exactly those bytes, returned slots/expiry are the persisted ones, the stored row is the accepted version')
+K('C08', 'P2.add_update', 'teos', _w + 'c08_add_update', 'accepted update: same, the stored row is replaced by the accepted version (blob, delay, signature, start block)')
+K('C08', 'P3.refused_no_receipt', 'teos', _w + 'c07_add_no_slots', 'no receipt (and no write) without slots', 'thorough')
+
+K('C07', 'P2.add_two_slots', 'teos', _w + 'c07_add_two_slots', 'add_appointment with a 2049-byte blob charges 2 slots: returned == memory == database', 'thorough')
+K('C07', 'P2.add_update_grow', 'teos', _w + 'c07_add_update_grow', 'replacing a 1-slot appointment by a 4097-byte one charges exactly the difference (2)', 'thorough')
+
+K('C11', 'K1.late_already_in_chain', 'teos', _w + 'c11_late_already_in_chain', 'no orphan appointment row after a late appointment whose penalty is already in the chain (F15 regression); no panic')
+K('C11', 'K1.handle_breach_panic_free', 'teos', _r + 'c01_p3_handle_breach_not_in_index', 'no unwrap/overflow/index panic in handle_breach for any node reply')
+K('C11', 'K1.check_confirmations_panic_free', 'teos', _r + 'c04_p1_cc_absent_fresh_confirmed', 'no panic (incl. current_height - h) in check_confirmations under the stated invariant')
+K('C11', 'K1.gatekeeper_panic_free', 'teos', _g + 'c07_k4_delete_refund_two', 'no panic in delete_appointments(refund) for rows that exist', 'thorough')
